@@ -75,11 +75,11 @@ SetComposition(n, v) == /\ live[n].cmp /\ live[n].pn # v
 SetTemperature(n, T) == /\ live[n].cmp /\ live[n].tmp[2] # T
                         /\ live' = [live EXCEPT ![n].tmp[2] = T, ![n].od = "o@" \o T]
                         /\ act' = [n |-> "SetTemperature", o |-> n, T |-> T] /\ Frame
-Swap(a, b) == /\ a < b /\ live[a].lk = "I" /\ live[b].lk = "I" /\ live[a].lg = live[b].lg /\ live[a].ty = "HexAssembly"
+Swap(a, b) == /\ a < b /\ b <= Len(live) /\ live[a].lk = "I" /\ live[b].lk = "I" /\ live[a].lg = live[b].lg /\ live[a].ty = "HexAssembly"
               /\ live' = [live EXCEPT ![a].loc = live[b].loc, ![b].loc = live[a].loc]
               /\ act' = [n |-> "Swap", a |-> a, b |-> b] /\ Frame
 RotL(s) == IF Len(s) < 2 THEN s ELSE Tail(s) \o <<Head(s)>>
-Rotate(a) == /\ live[a].ty = "HexAssembly"
+Rotate(a) == /\ a <= Len(live) /\ live[a].ty = "HexAssembly"
              /\ LET blocks == {live[a].kids[k] : k \in Ix(live[a].kids)}
                     pins   == {c \in Ix(live) : live[c].lk = "M" /\ live[c].lg \in blocks}
                 IN live' = [n \in Ix(live) |-> IF n \in pins THEN [live[n] EXCEPT !.loc = RotL(@)]
@@ -94,7 +94,7 @@ Grow == /\ Len(live) + 3 <= MaxNodes
                          Nd("Circle", k + 3, <<>>, "M", <<<<0, 0, 0>>>>, k + 2, NoGrid, TRUE, <<1, 1>>) >>
         /\ act' = [n |-> "Grow"] /\ Frame
 \* a second child without locator makes the reactor unsortable (what a half-built model looks like)
-Detach(n) == /\ live[n].ty = "HexAssembly" /\ live[n].lk = "I"
+Detach(n) == /\ n <= Len(live) /\ live[n].ty = "HexAssembly" /\ live[n].lk = "I"
              /\ live' = [live EXCEPT ![n].lk = "N", ![n].loc = <<>>, ![n].lg = 0]
              /\ act' = [n |-> "Detach", o |-> n] /\ Frame
 
@@ -116,9 +116,9 @@ Temps == {"400.5", "500.0"}
 Next == \/ \E n \in MutNodes, v \in PVals : AssignParam(n, v)
         \/ \E n \in MutNodes, v \in PVals : SetComposition(n, v)
         \/ \E n \in MutNodes, T \in Temps : SetTemperature(n, T)
-        \/ \E a, b \in Ix(live) : Swap(a, b)
-        \/ \E a \in Ix(live) : Rotate(a)
-        \/ \E a \in Ix(live) : Detach(a)
+        \/ \E a, b \in 1..MaxNodes : Swap(a, b)
+        \/ \E a \in 1..MaxNodes : Rotate(a)
+        \/ \E a \in 1..MaxNodes : Detach(a)
         \/ Grow
         \/ \E s \in Slots : Write(s)
         \/ \E s \in Slots : WriteRefused(s)
